@@ -1587,10 +1587,11 @@ def _part_b_wave(rep: Report, P, targets: dict, hist_kinds, hashseeds, n_fresh_t
                         stats["order_diffs_confirmed"] = stats.get("order_diffs_confirmed", 0) + 1
                         record(rep, "order-within", f"compiling at version {t['other']} first changes the slot numbering of the version-{t['version']} "
                                       f"program (target {ti}, {have[0]} vs {g}); equal up to a renaming of slots", dict(replay, label=g), key=KEY_ORDER)
-                    elif ((g in pr["ties"] or have[0] in pr["ties"] or (g == "after-failed-compile" and "r2" in pr["ties"]))
+                    elif ((g in pr["ties"] or have[0] in pr["ties"] or (g == "after-failed-compile" and t["kind"] == "router"))
                           and a["csha"] == b["csha"] and a["st"] == b["st"] == "ok"):
-                        # (a compilation that failed counts as a first compilation: the routines' declarations are cached with their slots and
-                        # the id counter is rewound, so the next one is a "second" compilation with the listed slot-id ties)
+                        # (a compilation that failed counts as a first compilation -- and one that stopped half-way: some declarations are
+                        # cached with their slots, the id counter is rewound, so the next one has the listed slot-id ties whether or not the model
+                        # predicts them for a complete second compilation; only differences that are a pure renaming of slots are classified)
                         stats["tie_diffs_confirmed"] = stats.get("tie_diffs_confirmed", 0) + 1
                         record(rep, "tie-within", f"repeated Router.compile_program differs by a renaming of slot numbers (target {ti}, {have[0]} vs {g})",
                                       dict(replay, label=g), key=KEY_TIE)
@@ -1605,7 +1606,7 @@ def _part_b_wave(rep: Report, P, targets: dict, hist_kinds, hashseeds, n_fresh_t
                     continue
                 any_diff = True
                 stats["diffs_across_processes"] = stats.get("diffs_across_processes", 0) + 1
-                if (lab in pr["ties"] or (lab == "after-failed-compile" and "r2" in pr["ties"])) and a["csha"] == b["csha"] and a["st"] == b["st"] == "ok":
+                if (lab in pr["ties"] or (lab == "after-failed-compile" and t["kind"] == "router")) and a["csha"] == b["csha"] and a["st"] == b["st"] == "ok":
                     stats["tie_diffs_confirmed"] = stats.get("tie_diffs_confirmed", 0) + 1
                     record(rep, "tie-across", f"Router.compile_program #{lab} of target {ti} differs between processes by a renaming of slot numbers",
                                   dict(replay, label=lab), key=KEY_TIE)
